@@ -354,4 +354,142 @@ theorem setPathS_jsonRep (f : PyVal → PyVal × Out) (hf : ∀ x, jsonRep x = t
       rw [setPathS_nondict_cons f k ks v hv']
       exact h
 
+/-! ### the interpreted statement lists are the documented functions -/
+
+theorem outNorm (x : PyVal × Out) :
+    (match x with
+      | (s', Except.ok _) => (s', (Except.ok () : Out))
+      | (s', Except.error e) => (s', Except.error e)) = x := by
+  obtain ⟨s', r⟩ := x
+  cases r <;> rfl
+
+theorem rpmsRun_spec (s : PyVal) (a : RpmsArgs) : rpmsRun a specRpmsScript s (REnv.init a) = Rpms.addSpec s a := by
+  unfold Rpms.addSpec rpmsCheck
+  simp only [specRpmsScript, rpmsRun, rpmsPure, refuseIf, reduceCtorEq, ↓reduceIte, REnv.init]
+  by_cases h1 : (!Gen.RPM_ARCHES.contains a.arch) = true
+  · simp only [h1, ↓reduceIte]
+  simp only [h1, ↓reduceIte, Bool.false_eq_true]
+  by_cases h2 : srcArches.contains a.arch = true
+  · simp only [h2, ↓reduceIte]
+  simp only [h2, ↓reduceIte, Bool.false_eq_true]
+  by_cases h3 : (!Gen.SUPPORTED_CATEGORIES.contains a.category) = true
+  · simp only [h3, ↓reduceIte]
+  simp only [h3, ↓reduceIte, Bool.false_eq_true]
+  by_cases h4 : a.path.isEmpty = true
+  · simp only [h4, ↓reduceIte]
+  simp only [h4, ↓reduceIte, Bool.false_eq_true]
+  by_cases h5 : Str.startsWith a.path ['/'] = true
+  · simp only [h5, ↓reduceIte]
+  simp only [h5, ↓reduceIte, Bool.false_eq_true]
+  cases hc : checkNevra a.nevra with
+  | error e => simp only
+  | ok r =>
+    obtain ⟨c, d⟩ := r
+    simp only
+    by_cases h6 : (a.category == lit "source" && a.srpm.isSome) = true
+    · simp only [h6, ↓reduceIte]
+    simp only [h6, ↓reduceIte, Bool.false_eq_true]
+    by_cases h7 : (a.category != lit "source" && a.srpm.isNone) = true
+    · simp only [h7, ↓reduceIte]
+    simp only [h7, ↓reduceIte, Bool.false_eq_true]
+    by_cases h8 : ((a.category == lit "source") != archIn nevraSrcArches d.arch) = true
+    · simp only [h8, ↓reduceIte]
+    simp only [h8, ↓reduceIte, Bool.false_eq_true]
+    cases hs : a.srpm with
+    | none => simp only [rpmsInsert]; exact outNorm _
+    | some t =>
+      simp only
+      by_cases h9 : t.isEmpty = true
+      · simp only [h9, ↓reduceIte, rpmsInsert]; exact outNorm _
+      simp only [h9, ↓reduceIte, Bool.false_eq_true]
+      cases hc2 : checkNevra t with
+      | error e => simp only [Except.map]
+      | ok r2 =>
+        obtain ⟨c2, d2⟩ := r2
+        simp only [Except.map, rpmsInsert]; exact outNorm _
+
+theorem modulesRun_spec (s : PyVal) (a : ModulesArgs) :
+    modulesRun a specModulesScript s (MEnv.init a) = Modules.addSpec s a := by
+  unfold Modules.addSpec modulesCheck
+  simp only [specModulesScript, modulesRun, modulesPure, refuseIf, reduceCtorEq, ↓reduceIte, MEnv.init]
+  by_cases h1 : a.variant.isEmpty = true
+  · simp only [h1, ↓reduceIte]
+  simp only [h1, ↓reduceIte, Bool.false_eq_true]
+  by_cases h2 : (!Gen.RPM_ARCHES.contains a.arch) = true
+  · simp only [h2, ↓reduceIte]
+  simp only [h2, ↓reduceIte, Bool.false_eq_true]
+  by_cases h3 : (!Gen.SUPPORTED_CATEGORIES.contains a.category) = true
+  · simp only [h3, ↓reduceIte]
+  simp only [h3, ↓reduceIte, Bool.false_eq_true]
+  cases hc : checkUid a.uid with
+  | error e => simp only
+  | ok r =>
+    obtain ⟨c, u⟩ := r
+    simp only
+    by_cases h4 : Str.startsWith a.modulemdPath ['/'] = true
+    · simp only [h4, ↓reduceIte]
+    simp only [h4, ↓reduceIte, Bool.false_eq_true]
+    by_cases h5 : a.kojiTag.isEmpty = true
+    · simp only [h5, ↓reduceIte]
+    simp only [h5, ↓reduceIte, Bool.false_eq_true, Bool.false_or]
+    by_cases h6 : a.modulemdPath.isEmpty = true
+    · simp only [h6, ↓reduceIte]
+    simp only [h6, ↓reduceIte, Bool.false_eq_true]
+    cases hr : a.rpms with
+    | other => simp only [↓reduceIte]
+    | list xs => simp only [Bool.false_eq_true, ↓reduceIte, modulesInsert, hr]; exact outNorm _
+    | tuple xs => simp only [Bool.false_eq_true, ↓reduceIte, modulesInsert, hr]; exact outNorm _
+
+theorem extraRun_spec (s : PyVal) (a : ExtraArgs) : extraRun a specExtraScript s = ExtraFiles.addSpec s a := by
+  unfold ExtraFiles.addSpec extraCheck
+  simp only [specExtraScript, extraRun, extraPure, refuseIf, reduceCtorEq, ↓reduceIte]
+  by_cases h1 : a.variant.isEmpty = true
+  · simp only [h1, ↓reduceIte]
+  simp only [h1, ↓reduceIte, Bool.false_eq_true]
+  by_cases h2 : (!Gen.RPM_ARCHES.contains a.arch) = true
+  · simp only [h2, ↓reduceIte]
+  simp only [h2, ↓reduceIte, Bool.false_eq_true]
+  by_cases h3 : a.path.isEmpty = true
+  · simp only [h3, ↓reduceIte]
+  simp only [h3, ↓reduceIte, Bool.false_eq_true]
+  by_cases h4 : Str.startsWith a.path ['/'] = true
+  · simp only [h4, ↓reduceIte]
+  simp only [h4, ↓reduceIte, Bool.false_eq_true]
+  by_cases h5 : (!a.checksums.isinstance .dict) = true
+  · simp only [h5, ↓reduceIte]
+  simp only [h5, ↓reduceIte, Bool.false_eq_true]
+  exact outNorm _
+
+/-! obligations on the generated statement lists (tools/gen_builders.py): the three `add` methods consist of exactly
+the documented refusals, in the documented order, followed by the insertion.  A refusal removed, added, reordered
+or rewritten in the source changes `Gen.*_add_script` (and with it the executable model) and these stop compiling. -/
+theorem rpms_script_eq : Gen.rpms_add_script = specRpmsScript := by decide
+theorem modules_script_eq : Gen.modules_add_script = specModulesScript := by decide
+theorem extra_script_eq : Gen.extra_add_script = specExtraScript := by decide
+
+/-- `Rpms.add` (the interpreted source statements) is: the documented refusals, then the insertion -/
+theorem Rpms.add_eq (s : PyVal) (a : RpmsArgs) :
+    Rpms.add s a = match rpmsCheck a with
+      | .error e => (s, .error e)
+      | .ok p => setPathS (rpmsLeaf p.key p.record) [a.variant, a.arch, p.srpmKey] s := by
+  unfold Rpms.add
+  rw [rpms_script_eq, rpmsRun_spec]
+  rfl
+
+theorem Modules.add_eq (s : PyVal) (a : ModulesArgs) :
+    Modules.add s a = match modulesCheck a with
+      | .error e => (s, .error e)
+      | .ok p => setPathS (modulesLeaf p) [a.variant, a.arch, p.uid] s := by
+  unfold Modules.add
+  rw [modules_script_eq, modulesRun_spec]
+  rfl
+
+theorem ExtraFiles.add_eq (s : PyVal) (a : ExtraArgs) :
+    ExtraFiles.add s a = match extraCheck a with
+      | .error e => (s, .error e)
+      | .ok rec => setPathS (extraLeaf a.arch rec) [a.variant] s := by
+  unfold ExtraFiles.add
+  rw [extra_script_eq, extraRun_spec]
+  rfl
+
 end PM.Mf
